@@ -729,6 +729,8 @@ func familyByName(name string, sel *Selection) []block {
 		return familyKind(sel, 2)
 	case "dkind3":
 		return familyKind(sel, 3)
+	case "cred":
+		return familyCred()
 	case "rec1":
 		return familyRec(1)
 	case "rec2":
